@@ -50,3 +50,37 @@ func init() {
 		},
 	}
 }
+
+func init() {
+	plans["C19"] = &plan{
+		level: "model_checking",
+		rule: "TLC enumerates every sequence of N operations over {get_char, peek_char, get_byte, peek_byte, read, at_end_of_stream} on every source of a curated set (and, thorough, every source of <= 3 " +
+			"characters over {a . space % newline 2-byte char}) x {text, binary} x {error, eof_code, reset}; Stream.tla gives after each operation the result, the byte position and the allowed end_of_stream " +
+			"(CursorOK, Delivered, PositionIsBytes, PeekKeeps, PastSticks checked in every state); each behaviour is replayed on a file opened by open/4 and on a host-provided reader, as consecutive goals of one " +
+			"conjunction, separated by a user-defined predicate, and one query per operation. distinct_nontrivial = distinct behaviours in which some operation consumes input or meets the end",
+		assume: []string{"end_of_stream before end_of_file was delivered may be not or at when nothing remains (left open by the property)", "after end_of_file on an eof_action(reset) stream end_of_stream is not constrained",
+			"read_term is modelled for names, layout, % comments and the end token only"},
+		trusted: []string{"TLC", "Stream.tla", "the operating system's file contents = the bytes the harness wrote"},
+		run: func(c *checkCtx) {
+			c.mcMustFail("Stream", "Stream_neg.cfg", tlcOpts{workers: 4})
+			cfgs := []string{"Stream_quick.cfg", "Stream_all3_quick.cfg"}
+			if c.tier == "thorough" {
+				cfgs = []string{"Stream_thorough.cfg", "Stream_all3.cfg"}
+			}
+			for _, cfg := range cfgs {
+				r := c.mcHolds("Stream", cfg, tlcOpts{})
+				cases, results := c.replay("stream", r.cases, replayOpts{opts: map[string]string{"tmp": c.work}, chunk: 16})
+				c.judge("stream", cases, results, func(cs, res map[string]J) string {
+					for _, h := range cs["hist"].([]J) {
+						if r := h.(map[string]J)["res"]; r == "item" || r == "term" || r == "eof" {
+							in, _ := res["input"].(string)
+							return in
+						}
+					}
+					return ""
+				})
+			}
+			c.exhaustive = true
+		},
+	}
+}
